@@ -102,21 +102,26 @@ class Ghost:
 def inv_conjuncts(p, f, n, g, k0):
     """name -> (tags, formula).  n = number of frames processed so far."""
     ns = f.state != SILENCE
+    cont = And(g.last_cut, f.sf == g.last_end + 1)       # sf is the frame right after a cut token (ghost only)
     out = {}
+    # conjuncts are kept small and tagged only with the properties whose STATEMENT they transcribe; untagged ones are
+    # auxiliaries: when a change makes one non-inductive, Houdini drops it and only properties that really depended
+    # on it can fail afterwards
     out["state_range"] = ((), And(f.state >= 0, f.state <= 3))
     out["start_in_range"] = (("C01",), Implies(ns, And(0 <= f.sf, f.sf <= n)))
     out["order"] = (("C01",), And(g.last_end >= -1, g.last_end < n, Implies(ns, g.last_end < f.sf)))
     out["below_max"] = (("C02",), Implies(ns, n - f.sf < p.M))
-    out["noise"] = ((), Implies(f.state == NOISE, And(f.sl == 0, n >= 1, V(n - 1))))
-    out["possible_silence"] = ((), Implies(f.state == POSSIBLE_SILENCE,
-                                         And(f.sl >= 1, f.sl <= p.s, f.sl == run(n - 1), n >= 1)))
-    out["contiguous_flag"] = (("C02", "C04"), Implies(f.ct, And(Or(f.state == NOISE, f.state == POSSIBLE_SILENCE),
-                                                               g.last_cut, f.sf == g.last_end + 1)))
-    out["starts_valid"] = (("C03",), Implies(And(ns, Not(f.ct)), And(n - f.sf > 0, V(f.sf))))
+    out["noise_sl0"] = ((), Implies(f.state == NOISE, f.sl == 0))
+    out["noise_last_valid"] = ((), Implies(f.state == NOISE, And(n >= 1, V(n - 1))))
+    out["ps_range"] = ((), Implies(f.state == POSSIBLE_SILENCE, And(f.sl >= 1, f.sl <= p.s, n >= 1)))
+    out["ps_run"] = ((), Implies(f.state == POSSIBLE_SILENCE, f.sl == run(n - 1)))
+    out["contiguous_flag"] = (("C02", "C04"), Implies(f.ct, And(Or(f.state == NOISE, f.state == POSSIBLE_SILENCE), cont)))
+    out["starts_valid"] = (("C03",), Implies(ns, Or(V(f.sf), cont)))
+    out["nonempty_unless_continuation"] = ((), Implies(And(ns, Not(cont)), n - f.sf > 0))
     out["runs_bounded"] = (("C03",), Implies(And(ns, f.sf <= k0, k0 < n), run(k0) <= p.Bnd))
-    out["possible_noise"] = ((), Implies(f.state == POSSIBLE_NOISE,
-                                       And(p.i0 > 1, f.ic >= 1, f.ic < p.i0, f.sl == run(n - 1),
-                                           f.sl >= 0, f.sl <= p.imsp, Not(f.ct), n >= 1)))
+    out["pn_shape"] = ((), Implies(f.state == POSSIBLE_NOISE, And(p.i0 > 1, f.ic >= 1, f.ic < p.i0, n >= 1)))
+    out["pn_run"] = ((), Implies(f.state == POSSIBLE_NOISE, And(f.sl == run(n - 1), f.sl >= 0, f.sl <= p.imsp)))
+    out["pn_not_contiguous"] = (("C02", "C04"), Implies(f.state == POSSIBLE_NOISE, Not(f.ct)))
     # --- C04 coupling (init_min <= 1 only)
     c = p.i0 <= 1
     pn1 = ps(n - 1)
@@ -223,12 +228,12 @@ def prove_shape(eng, o, where):
     ok = ok and (isinstance(o.ct, bool) or (z3.is_expr(o.ct) and o.ct.sort() == BoolS))
     for x in (o.sl, o.ic, o.sf, o.cf):
         ok = ok and ((isinstance(x, int) and not isinstance(x, bool)) or (z3.is_expr(x) and x.sort() == IntS))
-    eng.prove("field-kinds:" + where, ok, props=("C01", "C02", "C03", "C04"))
+    eng.prove("field-kinds:" + where, ok, props=("C01", "C02", "C03", "C04", "C20"))
     if not ok:
         raise PathEnd()
 
 
-def check_inv_post(eng, p, o, n1, g1, k0, active, where):
+def check_inv_post(eng, p, o, n1, g1, k0, active, where, extra=()):
     """Prove every active invariant conjunct in the post state (n1 = frames
     processed after the step), including the binding _data == F[sf:n1)."""
     class Fx:
@@ -238,18 +243,18 @@ def check_inv_post(eng, p, o, n1, g1, k0, active, where):
     conj = inv_conjuncts(p, f1, n1, g1, k0)
     for name in active:
         tags, fm = conj[name]
-        eng.prove("inv[%s]:%s" % (name, where), fm, props=tags or ("*",))
+        eng.prove("inv[%s]:%s" % (name, where), fm, props=(tuple(tags) + tuple(extra)) or ("*",))
     # buffer content
     dl = data_len(f1, n1)
-    eng.prove("inv[buffer_length]:" + where, I(o.data.n) == dl, props=("C01",))
+    eng.prove("inv[buffer_length]:" + where, I(o.data.n) == dl, props=("C01",) + tuple(extra))
     j = Int(fresh_name("j"))
     el = o.data.at(j)
     elt = el.t if isinstance(el, Opq) else None
     if elt is None:
-        eng.prove("inv[buffer_content]:" + where, False, props=("C01",))
+        eng.prove("inv[buffer_content]:" + where, False, props=("C01",) + tuple(extra))
     else:
         eng.prove("inv[buffer_content]:" + where,
-                  Implies(And(j >= 0, j < I(o.data.n)), elt == F(f1.sf + j)), props=("C01",))
+                  Implies(And(j >= 0, j < I(o.data.n)), elt == F(f1.sf + j)), props=("C01",) + tuple(extra))
     # ownership: the buffer is not a list that has been handed out
     eng.prove("inv[buffer_not_aliased_by_delivered_token]:" + where,
               o.data.aid is None or o.data.aid not in eng.st.escaped, props=("C01", "C20"))
@@ -349,8 +354,9 @@ def flush_spec(p, f, n):
     return deliver, f.sf, eff
 
 
-INV_NAMES = ["state_range", "start_in_range", "order", "below_max", "noise", "possible_silence",
-             "contiguous_flag", "starts_valid", "runs_bounded", "possible_noise",
+INV_NAMES = ["state_range", "start_in_range", "order", "below_max", "noise_sl0", "noise_last_valid", "ps_range", "ps_run",
+             "contiguous_flag", "starts_valid", "nonempty_unless_continuation", "runs_bounded", "pn_shape", "pn_run",
+             "pn_not_contiguous",
              "c04_states", "c04_silence_iff", "c04_piece_start", "c04_contiguous_iff"]
 
 
@@ -590,7 +596,7 @@ def unit_iter_tokens(sess, ctx, active):
             eng.assume(And(g0.last_end == -1, Not(g0.last_cut)))
             eng.prove("C20:frame-counter-reset", I(o.cf) == -1, props=("C20", "C01"))
             eng.assume(defs_at(n0, p))
-            check_inv_post(eng, p, o, n0, g0, k0, active, "_iter_tokens:entry(C20)")
+            check_inv_post(eng, p, o, n0, g0, k0, active, "_iter_tokens:entry(C20)", extra=("C20",))
             # ---- arbitrary iteration
             f = Fields("it.")
             g = Ghost("it.")
